@@ -267,6 +267,16 @@ def from_shapes():
         ("four_joins", lambda n: ((ir.FromGroup(A, (ir.Join("JOIN", B, on("ta", "tb")), ir.Join("LEFT JOIN", C, on("tb", "s1.tc")),
                                                    ir.Join("INNER JOIN", ir.T(None, "tj3", "j3", True), on("ta", "j3")),
                                                    ir.Join("RIGHT JOIN", ir.T("s2", "tj4"), ("using", ("k",))))),), "ta", ())),
+        ("right_nested_join", lambda n: ((ir.FromGroup(A, (ir.Join("JOIN", ir.Nested(ir.FromGroup(B, (ir.Join("LEFT JOIN", C, on("tb", "s1.tc")),))), on("ta", "tb")),)),), "ta", ())),
+        ("right_nested_join_derived", lambda n: ((ir.FromGroup(A, (ir.Join("LEFT JOIN", ir.Nested(ir.FromGroup(ir.T(None, "tb", "y", True), (ir.Join("JOIN", ir.Derived(_sub(8), "d2", True), on("y", "d2")),
+                                                                                                                      ir.Join("JOIN", C, on("y", "s1.tc"))))), on("ta", "y")),)),), "ta", ())),
+        ("nested_join_first", lambda n: ((ir.FromGroup(ir.Nested(ir.FromGroup(A, (ir.Join("JOIN", B, on("ta", "tb")),))), (ir.Join("JOIN", C, on("ta", "s1.tc")),)),), "ta", ())),
+        ("recursive_cte", lambda n: ((ir.FromGroup(ir.CteRef("q1")),), "q1", ("RECURSIVE", ("q1", ir.SetOp(("UNION ALL",), (
+            ir.Select((ir.Item(ir.Col(None, "c1")),), (ir.FromGroup(ir.T(None, "sq9")),)),
+            ir.Select((ir.Item(ir.Col("tr", "c1")),), (ir.FromGroup(ir.T(None, "tr"), (ir.Join("JOIN", ir.CteRef("q1"), ("on", ir.Cmp(ir.Col("tr", "k"), "=", ir.Col("q1", "c1")))),)),)))))))),
+        ("recursive_cte_comma_alias", lambda n: ((ir.FromGroup(ir.CteRef("q1", "z", True)),), "z", ("RECURSIVE", ("q1", ir.SetOp(("UNION ALL",), (
+            ir.Select((ir.Item(ir.Col(None, "c1")),), (ir.FromGroup(ir.T("s2", "sq9")),)),
+            ir.Select((ir.Item(ir.Col("tr", "c1")),), (ir.FromGroup(ir.T(None, "tr")), ir.FromGroup(ir.CteRef("q1", "r", False))), ir.Cmp(ir.Col("tr", "k"), "=", ir.Col("r", "c1"))))))))),
         ("derived", lambda n: ((ir.FromGroup(ir.Derived(_sub_nested(7) if n else _sub(7), "d1", True)),), "d1", ())),
         ("derived_in_join", lambda n: ((ir.FromGroup(A, (ir.Join("JOIN", ir.Derived(_sub_nested(8) if n else _sub(8), "d2", False), on("ta", "d2")),)),), "ta", ())),
         ("cte_ref", lambda n: ((ir.FromGroup(ir.CteRef("q1")),), "q1", (("q1", _sub_nested(9) if n else _sub(9)),))),
@@ -317,25 +327,33 @@ def statement_kinds():
     tgt = ir.T(None, "tgt")
     tq = ir.T("s9", "tgt")
     kinds = [
-        ("bare", lambda q, ctes: ir.Bare(ir.With(ctes, q) if ctes else q)),
-        ("insert_into", lambda q, ctes: ir.Insert(tgt, None, ir.With(ctes, q) if ctes else q, "INSERT INTO", False)),
-        ("insert_into_qualified_paren", lambda q, ctes: ir.Insert(tq, None, ir.With(ctes, q) if ctes else q, "INSERT INTO", not ctes)),
-        ("insert_into_table", lambda q, ctes: ir.Insert(tgt, None, ir.With(ctes, q) if ctes else q, "INSERT INTO TABLE", False)),
-        ("insert_overwrite_table", lambda q, ctes: ir.Insert(tgt, None, ir.With(ctes, q) if ctes else q, "INSERT OVERWRITE TABLE", False)),
-        ("insert_overwrite", lambda q, ctes: ir.Insert(tq, None, ir.With(ctes, q) if ctes else q, "INSERT OVERWRITE", False)),
-        ("ctas", lambda q, ctes: ir.Ctas(tgt, ir.With(ctes, q) if ctes else q, "CREATE TABLE", False)),
-        ("ctas_if_not_exists_paren", lambda q, ctes: ir.Ctas(tq, ir.With(ctes, q) if ctes else q, "CREATE TABLE IF NOT EXISTS", not ctes)),
-        ("create_or_replace_table", lambda q, ctes: ir.Ctas(tgt, ir.With(ctes, q) if ctes else q, "CREATE OR REPLACE TABLE", False)),
-        ("create_view", lambda q, ctes: ir.CreateView(tgt, None, ir.With(ctes, q) if ctes else q, "CREATE VIEW", False)),
-        ("create_or_replace_view", lambda q, ctes: ir.CreateView(tq, None, ir.With(ctes, q) if ctes else q, "CREATE OR REPLACE VIEW", False)),
+        ("bare", lambda q, ctes: ir.Bare(_with(ctes, q) if ctes else q)),
+        ("insert_into", lambda q, ctes: ir.Insert(tgt, None, _with(ctes, q) if ctes else q, "INSERT INTO", False)),
+        ("insert_into_qualified_paren", lambda q, ctes: ir.Insert(tq, None, _with(ctes, q) if ctes else q, "INSERT INTO", not ctes)),
+        ("insert_into_table", lambda q, ctes: ir.Insert(tgt, None, _with(ctes, q) if ctes else q, "INSERT INTO TABLE", False)),
+        ("insert_overwrite_table", lambda q, ctes: ir.Insert(tgt, None, _with(ctes, q) if ctes else q, "INSERT OVERWRITE TABLE", False)),
+        ("insert_overwrite", lambda q, ctes: ir.Insert(tq, None, _with(ctes, q) if ctes else q, "INSERT OVERWRITE", False)),
+        ("ctas", lambda q, ctes: ir.Ctas(tgt, _with(ctes, q) if ctes else q, "CREATE TABLE", False)),
+        ("ctas_if_not_exists_paren", lambda q, ctes: ir.Ctas(tq, _with(ctes, q) if ctes else q, "CREATE TABLE IF NOT EXISTS", not ctes)),
+        ("create_or_replace_table", lambda q, ctes: ir.Ctas(tgt, _with(ctes, q) if ctes else q, "CREATE OR REPLACE TABLE", False)),
+        ("create_view", lambda q, ctes: ir.CreateView(tgt, None, _with(ctes, q) if ctes else q, "CREATE VIEW", False)),
+        ("create_or_replace_view", lambda q, ctes: ir.CreateView(tq, None, _with(ctes, q) if ctes else q, "CREATE OR REPLACE VIEW", False)),
         ("cte_insert", lambda q, ctes: ir.CteInsert(ctes, ir.Insert(tgt, None, q, "INSERT INTO", False)) if ctes else None),
     ]
     return kinds
 
 
+def _with(ctes, q):
+    if ctes and ctes[0] == "RECURSIVE":
+        return ir.With(tuple(ctes[1:]), q, True)
+    return ir.With(tuple(ctes), q)
+
+
 def skeletons(nest_levels):
     for (kname, kb), (fname, fb), (pname, pb), n in itertools.product(statement_kinds(), from_shapes(), subquery_positions(), nest_levels):
         groups, qual, ctes = fb(n)
+        if ctes and ctes[0] == "RECURSIVE" and kname == "cte_insert":
+            continue
         extra = pb(qual, n)
         items = (ir.Item(ir.Col(qual, "c1")),) + tuple(extra.get("extra_items", ()))
         q = ir.Select(items, groups, extra.get("where"), False, tuple(extra.get("group_by", ())), extra.get("having"))
